@@ -9,6 +9,8 @@ From Goit Require Import BranchFacts ExactFacts CommitCmdFacts.
 From Goit Require Import Bridge.
 From Goit Require Import Inv.
 From Goit Require HeadFacts.
+From Goit Require Import Ignore.
+From Goit Require ConfigFacts SnapshotFacts CtxFacts.
 Import ListNotations.
 
 Definition holds (st : store) (ds : list bytes) : Prop :=
@@ -114,3 +116,34 @@ Theorem C02_commit_spec_reachable : forall e msg w c root subs cm,
   commit_post e c msg w root cm w'.
 Proof. exact HeadFacts.commit_step_spec'. Qed.
 Print Assumptions C02_commit_spec_reachable.
+
+(* C02 as a TOTAL statement on EVERY history (any `config` calls: those that would make a
+   configuration file unloadable are refused): the context loads, and — the identity being
+   configured, something being staged that differs from HEAD's snapshot, the identity and clock
+   in the domain of C12 — `commit` succeeds with exactly the specified effect.  What is left
+   to assume: the user's own .goitignore is in the model's alphabet, and the guard (no SHA-1
+   collision, no object of 2^63 bytes) on the world the step ends in *)
+Theorem C02_commit_total_on_every_history : forall h w e msg,
+  Forall action_ok h ->
+  w = run h w_empty ->
+  ign_load (am_get (w_files w) (str ".goitignore"%string)) <> None ->
+  w_coll (step_w (ACmd e (CCommit msg)) w) = false ->
+  SnapshotFacts.SmallStore (w_objs (step_w (ACmd e (CCommit msg)) w)) ->
+  exists c,
+    ctx_of w = Some c /\ ConfigFacts.wf_cfg (x_l c) /\ ConfigFacts.wf_cfg (x_g c) /\
+    (user_set (x_l c) (x_g c) = true ->
+     (match tip_of w with
+      | Some hid => exists s, SnapshotFacts.snapshot (w_objs w) hid = Some s /\ s <> idx_of w
+      | None => w_refs w = [] /\ idx_of w <> []
+      end) ->
+     sign_ok (user_name (x_l c) (x_g c)) (user_email (x_l c) (x_g c)) (e_time e) (e_off e) ->
+     exists root subs cm,
+       write_tree_top (idx_of w) = Some (root, subs) /\
+       cm = commit_of e c msg w root /\
+       step (ACmd e (CCommit msg)) w =
+         (after_commit e c msg w root subs, OOk [], do_commit_trace e c msg w root subs) /\
+       commit_post e c msg w root cm (after_commit e c msg w root subs) /\
+       c_msg cm = msg /\
+       c_parents cm = parent_list (tip_of w)).
+Proof. exact CtxFacts.history_commit_total'. Qed.
+Print Assumptions C02_commit_total_on_every_history.
